@@ -1,4 +1,7 @@
-"""Conformance anchors for the reference models (run by MANIFEST.setup_cmd)."""
+"""Conformance anchors for the reference models (run by MANIFEST.setup_cmd and cheap enough
+to run before every check)."""
+import os
+import re
 
 
 def main():
@@ -14,10 +17,114 @@ def main():
     return 1 if failures else 0
 
 
-def _img_roundtrip():
+def _img():
     from vf.img import formats as F
     assert F.rgb(0) == (0, 0, 0) and F.rgb(63) == (255, 255, 255) and F.rgb(36) == (255, 0, 0) and F.rgb(9) == (0, 0, 255)
     assert F.parse_pnm(b"P6\n2 1\n255\n" + bytes(6))[1:4] == (2, 1, 3)
 
 
-ANCHORS = [("img-colour-and-pnm", _img_roundtrip)]
+def token_table():
+    """High-bit-terminated names of the BASIC09 binary on the repository's OS-9 disk image."""
+    from vf import core
+    path = os.path.join(core.REPO, "playground", "NOS9_6809_L2_v030300_coco3_80d.dsk")
+    d = open(path, "rb").read()
+    i = d.find(b"ALL RIGHTS RESERVED")
+    assert i > 0, "BASIC09 banner not found in the disk image"
+    seg = d[i + 19: i + 1400]
+    names, cur = [], b""
+    for b in seg:
+        c = b & 0x7F
+        if 32 <= c < 127:
+            cur += bytes([c])
+            if b & 0x80:
+                names.append(cur.decode())
+                cur = b""
+        else:
+            cur = b""
+    words = [n for n in names if re.fullmatch(r"[A-Z][A-Z0-9]*\$?", n) and len(n) >= 2]
+    return words
+
+
+def _reserved_words():
+    from vf.b09 import syntax as S
+    words = set(token_table())
+    # the table starts with PARAM and ends with DIR; everything between that looks like a word is a BASIC09 word
+    assert "PARAM" in words and "PROCEDURE" in words and "ENDEXIT" in words and "LXOR" in words, sorted(words)[:20]
+    model = set(S.RESERVED)
+    missing = {w for w in words if w not in model and w in set(S.STATEMENT_WORDS + S.FUNCTION_WORDS) | words and len(w) > 1}
+    missing = {w for w in words if w not in model}
+    extra = {w for w in model if w not in words}
+    assert not missing, f"words of the BASIC09 binary missing from the model: {sorted(missing)}"
+    assert not extra, f"model reserves words the BASIC09 binary does not have: {sorted(extra)}"
+    for w in ("IF", "ON", "TO", "DO", "PI", "SQ", "OR"):
+        assert w in model
+    assert "ERRNUM" not in words and "INKEY" not in words
+
+
+def _library_parses():
+    from vf import core
+    from vf.b09 import syntax as S
+    text = open(os.path.join(core.REPO, "coco", "resources", "ecb.b09"), encoding="latin-1").read()
+    procs = S.parse(re.sub(r"(?i)STRING<<>>", "STRING", text))
+    assert len(procs) >= 40, len(procs)
+    assert all(p.name for p in procs)
+
+
+def _decb_facts():
+    from vf.decb import model as D
+
+    def val(expr, pre=""):
+        m = D.Machine(f"10 {pre}Z={expr}\n")
+        m.run()
+        return m.vars["Z"]
+
+    def sval(expr):
+        m = D.Machine(f"10 Z$={expr}\n")
+        m.run()
+        return m.vars["Z$"]
+    facts = [("-2^2", -4), ("2^3^2", 64), ("NOT 1 AND 2", 2), ("NOT 0", -1), ("1=1", -1), ("1=2", 0), ("2+3*4", 14), ("(2+3)*4", 20), ("7 AND 3", 3), ("5 OR 2", 7), ("-3*2", -6),
+             ("INT(-1.5)", -2), ("FIX(-1.5)", -1), ("INT(1.5)", 1), ("SGN(-3)", -1), ("ABS(-3)", 3), ('INSTR(2,"ABCABC","BC")', 2), ('INSTR(3,"ABCABC","BC")', 5), ('INSTR(1,"ABC","Z")', 0),
+             ('LEN("ABC")', 3), ('ASC("A")', 65), ('VAL("12")', 12), ('VAL("X")', 0), ("1<2 AND 2<3", -1), ("NOT 1=1", 0), ("2-3-4", -5), ("2^-1", 0.5), ("8/4/2", 1), ("-2-3", -5), ("1 OR 2 AND 4", 1)]
+    for e, want in facts:
+        got = val(e)
+        assert abs(got - want) < 1e-9, f"{e} = {got}, documented {want}"
+    sf = [('STR$(5)', " 5"), ('STR$(-2.5)', "-2.5"), ('LEFT$("HELLO",2)', "HE"), ('RIGHT$("HELLO",2)', "LO"), ('MID$("HELLO",2,3)', "ELL"), ('MID$("HI",5,1)', ""), ('CHR$(65)', "A"),
+          ('HEX$(255)', "FF"), ('STRING$(3,"AB")', "AAA"), ('LEFT$("AB",5)', "AB"), ('"A"+"B"', "AB")]
+    for e, want in sf:
+        got = sval(e)
+        assert got == want, f"{e} = {got!r}, documented {want!r}"
+    # control flow facts
+    r = D.run_decb('10 FOR I=5 TO 1:PRINT "B":NEXT\n20 PRINT I\n')
+    assert [ev[0] for ev in r["trace"]] == ["PRINT", "PRINT"] and r["vars"]["I"] == 6.0, "FOR 5 TO 1 runs once"
+    r = D.run_decb('10 A=1:B=0:IF A THEN IF B THEN PRINT "X" ELSE PRINT "Y"\n')
+    assert r["trace"][0][1][0][1] == "Y", "ELSE binds to the nearest IF"
+    r = D.run_decb('10 A=0:IF A THEN PRINT "X":PRINT "Y"\n20 PRINT "Z"\n')
+    assert [ev[1][0][1] for ev in r["trace"]] == ["Z"], "a false IF skips the rest of the line"
+    r = D.run_decb('10 READ A,B$,C\n20 DATA 1, X Y ,\n')
+    assert r["vars"] == {"A": 1.0, "B$": "X Y ", "C": 0.0}, r["vars"]
+    r = D.run_decb('10 ON 3 GOTO 20,30\n15 PRINT "F":END\n20 END\n30 END\n')
+    assert r["trace"][0][1][0][1] == "F", "ON falls through when out of range"
+
+
+def _b09_facts():
+    from vf.b09 import runtime as R
+
+    def val(expr):
+        r = R.run_b09(f"procedure t\ndim z: real\nz := {expr}\n", with_library=False)
+        assert r["status"] == "ok", r
+        return r["env"]["z"]
+    facts = [("-2^2", 4), ("2^3^2", 64), ("2+3*4", 14), ("8/4/2", 1), ("2-3-4", -5), ("LAND(7,3)", 3), ("LOR(5,2)", 7), ("LNOT(0)", -1), ("INT(-1.5)", -1), ("INT(1.5)", 1), ("SQ(3)", 9), ("$10", 16), ("$FFFF", -1),
+             ("LEN(\"ABC\")", 3), ("ASC(\"A\")", 65)]
+    for e, want in facts:
+        got = val(e)
+        assert abs(float(got) - want) < 1e-9, f"BASIC09 {e} = {got}, expected {want}"
+    r = R.run_b09('procedure t\ndim b: boolean\ndim z: real\nb := NOT(1 = 2) AND 2 = 2\nif b then\nz := 1\nelse\nz := 2\nendif\n', with_library=False)
+    assert r["env"]["z"] == 1.0
+    r = R.run_b09('procedure t\ndim i,n: integer\nn := 0\nfor i = 5 to 1\nn := n + 1\nnext i\n', with_library=False)
+    assert r["env"]["n"] == 0, "BASIC09 FOR is top-tested"
+    r = R.run_b09('procedure t\ndim z: real\nz := 0\nloop\nz := z + 1\nexitif z >= 3 then\nz := z * 10\nendexit\nendloop\n', with_library=False)
+    assert r["env"]["z"] == 30.0
+
+
+ANCHORS = [("img-colour-and-pnm", _img), ("b09-reserved-words-equal-binary-token-table", _reserved_words), ("b09-parser-accepts-ecb.b09", _library_parses), ("decb-documented-facts", _decb_facts),
+           ("b09-documented-facts", _b09_facts)]
